@@ -2,7 +2,7 @@
    Tables.v on this run.  Statements the extractor does not know are tagged "other" when they touch
    nothing the shutdown logic depends on, and "?:<source>" otherwise; `core` drops the former, so an
    obligation breaks exactly when a relevant statement is added, removed or moved. *)
-From G11 Require Import Shutdown.
+From G11 Require Import Shutdown Gauge.
 
 Fixpoint memb (s : str) (l : list str) : bool :=
   match l with [] => false | x :: r => str_eqb s x || memb s r end.
@@ -85,3 +85,9 @@ Proof. vm_compute. split; reflexivity. Qed.
 
 Lemma ob_default_shutdown_timeout : (0 < default_shutdown_timeout_ms)%Z.
 Proof. vm_compute. reflexivity. Qed.
+
+(* the gauge listener_cx_active (Gauge.v): Listener.Accept adds one after a successful accept and wraps
+   the connection with OnClose = metrics.close; closeListener.Close runs once.Do(onClose) whatever the
+   underlying Close returned; metrics.close subtracts one *)
+Lemma ob_gauge_programs : good gpar_of_tables.
+Proof. vm_compute. repeat split. Qed.
